@@ -32,7 +32,7 @@ LEVELS = {
     "C01": "model_checking", "C02": "model_checking", "C03": "exploration", "C04": "exploration",
     "C05": "exploration", "C06": "exploration", "C07": "model_checking", "C08": "model_checking",
     "C09": "exploration", "C10": "model_checking", "C11": "model_checking", "C12": "model_checking",
-    "C13": "model_checking", "C14": "exploration", "C15": "exploration", "C16": "fault_enumeration",
+    "C13": "model_checking", "C14": "model_checking", "C15": "exploration", "C16": "fault_enumeration",
     "C17": "fault_enumeration", "C18": "exploration", "C19": "exploration", "C20": "exploration",
 }
 
